@@ -51,7 +51,10 @@ fn freq() -> impl Strategy<Value = u64> {
 }
 
 fn check_floor(&(a, b, f): &(u64, u64, u64)) -> Verdict {
-    let q = pure::tsc_duration_since(b, a, f);
+    let q = match crate::engine::catch(|| pure::tsc_duration_since(b, a, f)) {
+        Ok(q) => q,
+        Err(e) => return Verdict::fail("tsc-panic", format!("elapsed({a} -> {b}) at f={f} panicked: {e}")),
+    };
     if b < a {
         vensure!(q == 0, "negative-not-zero", "later={b} < earlier={a} but elapsed={q} ps (expected 0)");
         classify("b<a");
@@ -207,13 +210,13 @@ fn check_precision(case: &PrecisionCase) -> Verdict {
 }
 
 fn groups(g: &mut Groups) {
-    g.prop("tsc_floor", 2_000_000, 40_000_000, || (edge_u64(), edge_u64(), freq()), check_floor);
+    g.prop("tsc_floor", 2_000_000, 160_000_000, || (edge_u64(), edge_u64(), freq()), check_floor);
 
     // Correlated pairs: b close to a, and differences around 2^64/10^12.
     g.prop(
         "tsc_floor_near",
         1_000_000,
-        10_000_000,
+        40_000_000,
         || (edge_u64(), prop_oneof![0u64..=4, 18_446_740u64..=18_446_750, edge_u64()], any::<bool>(), freq()).prop_map(|(a, d, neg, f)| {
             let b = if neg { a.wrapping_sub(d) } else { a.wrapping_add(d) };
             (a, b, f)
@@ -224,7 +227,7 @@ fn groups(g: &mut Groups) {
     g.prop(
         "tsc_laws",
         1_000_000,
-        10_000_000,
+        40_000_000,
         || (edge_u64(), edge_u64(), edge_u64(), freq(), edge_u64()).prop_map(|(a, ab, bc, f, k)| Laws { a, ab, bc, f, k }),
         check_laws,
     );
@@ -232,7 +235,7 @@ fn groups(g: &mut Groups) {
     g.prop(
         "duration",
         1_000_000,
-        10_000_000,
+        40_000_000,
         || (
             edge_u64(),
             prop_oneof![0u32..1_000_000_000, Just(0u32), Just(999_999_999u32), Just(1u32), (0u32..1_000_000).prop_map(|x| x * 1000)],
@@ -250,7 +253,7 @@ fn groups(g: &mut Groups) {
     g.prop(
         "precision",
         15_000,
-        100_000,
+        400_000,
         || (
             prop_oneof![1u64..=1000, (0u32..40).prop_map(|k| 1u64 << k), edge_u64().prop_map(|x| (x >> 20).max(1))],
             freq(),
